@@ -669,4 +669,59 @@ theorem interpolate_eq {α φ : Type} {g : Grid α} {v : Pos → α} (hg : Denot
   rw [e]
   exact h
 
+/-! ## the iteration never leaves `[min, sup]` (no overflow / wrap-around of `++` for representable `sup`) -/
+
+/-- component-wise `mn ≤ q ≤ sp` (closed at both ends) -/
+def Between : Pos → Pos → Pos → Prop
+  | [], [], [] => True
+  | m :: ms, s :: ss, x :: xs => m ≤ x ∧ x ≤ s ∧ Between ms ss xs
+  | _, _, _ => False
+
+theorem InBox.between {mn sp p : Pos} (h : InBox mn sp p) : Between mn sp p := by
+  induction mn generalizing sp p with
+  | nil => cases sp <;> cases p <;> simp_all [InBox, Between]
+  | cons m ms ih =>
+    cases sp with
+    | nil => simp [InBox] at h
+    | cons s ss =>
+      cases p with
+      | nil => simp [InBox] at h
+      | cons x xs =>
+        simp only [InBox] at h
+        exact ⟨h.1, by omega, ih h.2.2⟩
+
+theorem endInit_between {mn sp : Pos} (hl : mn.length = sp.length) (hne : mn ≠ []) (h : minLessSup mn sp = true) :
+    Between mn sp (endInit mn sp) := by
+  induction mn generalizing sp with
+  | nil => simp at hne
+  | cons m ms ih =>
+    cases sp with
+    | nil => simp at hl
+    | cons s ss =>
+      have hl' : ms.length = ss.length := by simpa using hl
+      rw [minLessSup_cons] at h
+      simp only [Bool.and_eq_true, decide_eq_true_eq] at h
+      cases ms with
+      | nil =>
+        cases ss with
+        | cons _ _ => simp at hl'
+        | nil => simp only [endInit, Between]; exact ⟨by omega, by omega, trivial⟩
+      | cons m1 ms' =>
+        cases ss with
+        | nil => simp at hl'
+        | cons s1 ss' =>
+          rw [endInit_cons_cons]
+          exact ⟨by omega, by omega, ih (sp := s1 :: ss') hl' (by simp) h.2⟩
+
+theorem next_between {mn sp p : Pos} (hne : mn ≠ []) (hp : InBox mn sp p) : Between mn sp (next p mn sp) := by
+  have hl := hp.length
+  have hb := linR_inBox hp
+  have hs := next_step hne hp
+  by_cases h : linR mn sp p + 1 < count mn sp
+  · exact (hs.1 h).1.between
+  · have he : linR mn sp p + 1 = count mn sp := by omega
+    rw [hs.2 he]
+    simp only [endPos, hp.minLessSup, if_true]
+    exact endInit_between (by omega) hne hp.minLessSup
+
 end Fcppt.C08
